@@ -8,6 +8,8 @@ for m in sorted(glob.glob('/verif/seeded/*/meta.json')):
     last = ran[-1] if ran else {}
     det = last.get('detail', '')
     first_try = 'after strengthening' if ('missed at first' in det or 'after strengthening' in det or 'strengthen' in det) else 'as built'
+    if d.get('outside_statement'):
+        last = dict(last); last['result'] = 'not counted (outside the statement)'
     rows.append('| %s | %s | %s | %s | %s |' % (d['id'], d.get('needs_to_manifest', '').replace('|', '/'), ', '.join(d.get('caught_by') or []) or '—',
                                            last.get('result', 'not run'), (first_try + ': ' + last.get('detail', '')).replace('|', '/')))
 table = '''### 8.5 Seeded changes (independent sub-agents)
